@@ -124,7 +124,13 @@ func (r *Run) unguardedErrorSites(f *ssa.Function) []unguarded {
 				}
 				return false
 			}
-			if !dfs([]*ssa.BasicBlock{b}) {
+			// (start with the blocks that necessarily precede the call's block, so that a condition under which the
+			// call is made — `if !batch { err = f() }` — is known when the same condition is tested again later)
+			start := []*ssa.BasicBlock{b}
+			for d := 0; d < 4 && len(start[0].Preds) == 1; d++ {
+				start = append([]*ssa.BasicBlock{start[0].Preds[0]}, start...)
+			}
+			if !dfs(start) {
 				continue
 			}
 			key, _, _ := r.P.CalleeKey(c.Common())
